@@ -67,16 +67,19 @@ package serializers
 //@   ensures [C03:spdx:files:complete] result1 == nil ==> (forall i int :: 0 <= i && i < len(bom.NodeList.Nodes) && bom.NodeList.Nodes[i].Type != 0 ==> (bom.NodeList.Nodes[i].Id in fieldset(result0, FileSPDXIdentifier)))
 //@   invariant L0: [C03:inv] forall i int :: 0 <= i && i < _i && bom.NodeList.Nodes[i].Type != 0 ==> (bom.NodeList.Nodes[i].Id in fieldset(files, FileSPDXIdentifier))
 
+// where the scalar attributes of a node must land in its SPDX package (written from the attribute list of C01)
+//@ pred spdxPkgOf(p *v2_3.Package, n *sbom.Node) = p.PackageSPDXIdentifier == n.Id && p.PackageName == n.Name && p.PackageVersion == n.Version && p.PackageFileName == n.FileName && p.PackageHomePage == n.UrlHome && p.PackageLicenseConcluded == n.LicenseConcluded && p.PackageLicenseComments == n.LicenseComments && p.PackageSourceInfo == n.SourceInfo && p.PackageSummary == n.Summary && p.PackageDescription == n.Description && p.PackageComment == n.Comment && p.PackageDownloadLocation == (n.UrlDownload == "" ? "NOASSERTION" : n.UrlDownload)
+
 //@ func SPDX23.buildPackages
 //@   props C03, C01
 //@   inline
 //@   requires [C03:pre] bom != nil && bom.NodeList != nil && sbom.validNL(bom.NodeList)
 //@   ensures [C03:spdx:packages:complete] result1 == nil ==> (forall i int :: 0 <= i && i < len(bom.NodeList.Nodes) && bom.NodeList.Nodes[i].Type != 1 ==> (bom.NodeList.Nodes[i].Id in fieldset(result0, PackageSPDXIdentifier)))
-//@   ensures [C01:spdx:package:scalars] result1 == nil ==> ((forall u int :: 0 <= u && u < len(bom.NodeList.Nodes) ==> !(bom.NodeList.Nodes[u].Id in fieldsetn(bom.NodeList.Nodes, Id, u))) ==> (forall p *v2_3.Package, i int :: (p in elems(result0)) && 0 <= i && i < len(bom.NodeList.Nodes) && bom.NodeList.Nodes[i].Type != 1 && p.PackageSPDXIdentifier == bom.NodeList.Nodes[i].Id ==> p.PackageName == bom.NodeList.Nodes[i].Name && p.PackageVersion == bom.NodeList.Nodes[i].Version && p.PackageFileName == bom.NodeList.Nodes[i].FileName && p.PackageHomePage == bom.NodeList.Nodes[i].UrlHome && p.PackageLicenseConcluded == bom.NodeList.Nodes[i].LicenseConcluded && p.PackageSummary == bom.NodeList.Nodes[i].Summary && p.PackageDescription == bom.NodeList.Nodes[i].Description && p.PackageComment == bom.NodeList.Nodes[i].Comment && p.PackageDownloadLocation == (bom.NodeList.Nodes[i].UrlDownload == "" ? "NOASSERTION" : bom.NodeList.Nodes[i].UrlDownload)))
+//@   ensures [C01:spdx:package:scalars] result1 == nil ==> ((forall u int :: 0 <= u && u < len(bom.NodeList.Nodes) ==> !(bom.NodeList.Nodes[u].Id in fieldsetn(bom.NodeList.Nodes, Id, u))) ==> (forall p *v2_3.Package, i int :: (p in elems(result0)) && 0 <= i && i < len(bom.NodeList.Nodes) && bom.NodeList.Nodes[i].Type != 1 && p.PackageSPDXIdentifier == bom.NodeList.Nodes[i].Id ==> spdxPkgOf(p, bom.NodeList.Nodes[i])))
 //@   ensures [C01:spdx:package:dates] result1 == nil ==> ((forall u int :: 0 <= u && u < len(bom.NodeList.Nodes) ==> !(bom.NodeList.Nodes[u].Id in fieldsetn(bom.NodeList.Nodes, Id, u))) ==> (forall p *v2_3.Package, i int :: (p in elems(result0)) && 0 <= i && i < len(bom.NodeList.Nodes) && bom.NodeList.Nodes[i].Type != 1 && p.PackageSPDXIdentifier == bom.NodeList.Nodes[i].Id ==> (bom.NodeList.Nodes[i].ReleaseDate != nil ==> p.ReleaseDate == time.Time.Format(time.Time.UTC(timestamppb.Timestamp.AsTime(bom.NodeList.Nodes[i].ReleaseDate)), "2006-01-02T15:04:05Z07:00")) && (bom.NodeList.Nodes[i].BuildDate != nil ==> p.BuiltDate == time.Time.Format(time.Time.UTC(timestamppb.Timestamp.AsTime(bom.NodeList.Nodes[i].BuildDate)), "2006-01-02T15:04:05Z07:00")) && (bom.NodeList.Nodes[i].ValidUntilDate != nil ==> p.ValidUntilDate == time.Time.Format(time.Time.UTC(timestamppb.Timestamp.AsTime(bom.NodeList.Nodes[i].ValidUntilDate)), "2006-01-02T15:04:05Z07:00")) && (bom.NodeList.Nodes[i].ReleaseDate == nil ==> p.ReleaseDate == "") && (bom.NodeList.Nodes[i].BuildDate == nil ==> p.BuiltDate == "") && (bom.NodeList.Nodes[i].ValidUntilDate == nil ==> p.ValidUntilDate == "")))
 //@   invariant L0: [C01:inv] (forall u int :: 0 <= u && u < len(bom.NodeList.Nodes) ==> !(bom.NodeList.Nodes[u].Id in fieldsetn(bom.NodeList.Nodes, Id, u))) ==> (forall p *v2_3.Package, i int :: (p in elems(packages)) && 0 <= i && i < len(bom.NodeList.Nodes) && bom.NodeList.Nodes[i].Type != 1 && p.PackageSPDXIdentifier == bom.NodeList.Nodes[i].Id ==> (bom.NodeList.Nodes[i].ReleaseDate != nil ==> p.ReleaseDate == time.Time.Format(time.Time.UTC(timestamppb.Timestamp.AsTime(bom.NodeList.Nodes[i].ReleaseDate)), "2006-01-02T15:04:05Z07:00")) && (bom.NodeList.Nodes[i].BuildDate != nil ==> p.BuiltDate == time.Time.Format(time.Time.UTC(timestamppb.Timestamp.AsTime(bom.NodeList.Nodes[i].BuildDate)), "2006-01-02T15:04:05Z07:00")) && (bom.NodeList.Nodes[i].ValidUntilDate != nil ==> p.ValidUntilDate == time.Time.Format(time.Time.UTC(timestamppb.Timestamp.AsTime(bom.NodeList.Nodes[i].ValidUntilDate)), "2006-01-02T15:04:05Z07:00")) && (bom.NodeList.Nodes[i].ReleaseDate == nil ==> p.ReleaseDate == "") && (bom.NodeList.Nodes[i].BuildDate == nil ==> p.BuiltDate == "") && (bom.NodeList.Nodes[i].ValidUntilDate == nil ==> p.ValidUntilDate == ""))
 //@   ensures [C01:spdx:package:people] result1 == nil ==> ((forall u int :: 0 <= u && u < len(bom.NodeList.Nodes) ==> !(bom.NodeList.Nodes[u].Id in fieldsetn(bom.NodeList.Nodes, Id, u))) ==> (forall p *v2_3.Package, i int :: (p in elems(result0)) && 0 <= i && i < len(bom.NodeList.Nodes) && bom.NodeList.Nodes[i].Type != 1 && p.PackageSPDXIdentifier == bom.NodeList.Nodes[i].Id ==> ((p.PackageSupplier != nil) <==> (len(bom.NodeList.Nodes[i].Suppliers) > 0)) && ((p.PackageOriginator != nil) <==> (len(bom.NodeList.Nodes[i].Originators) > 0))))
 //@   invariant L0: [C01:inv] !(nil in elems(packages)) && (forall p *v2_3.Package :: (p in elems(packages)) ==> fresh(p) && (p.PackageSPDXIdentifier in fieldsetn(bom.NodeList.Nodes, Id, _i)))
-//@   invariant L0: [C01:inv] (forall u int :: 0 <= u && u < len(bom.NodeList.Nodes) ==> !(bom.NodeList.Nodes[u].Id in fieldsetn(bom.NodeList.Nodes, Id, u))) ==> (forall p *v2_3.Package, i int :: (p in elems(packages)) && 0 <= i && i < len(bom.NodeList.Nodes) && bom.NodeList.Nodes[i].Type != 1 && p.PackageSPDXIdentifier == bom.NodeList.Nodes[i].Id ==> p.PackageName == bom.NodeList.Nodes[i].Name && p.PackageVersion == bom.NodeList.Nodes[i].Version && p.PackageFileName == bom.NodeList.Nodes[i].FileName && p.PackageHomePage == bom.NodeList.Nodes[i].UrlHome && p.PackageLicenseConcluded == bom.NodeList.Nodes[i].LicenseConcluded && p.PackageSummary == bom.NodeList.Nodes[i].Summary && p.PackageDescription == bom.NodeList.Nodes[i].Description && p.PackageComment == bom.NodeList.Nodes[i].Comment && p.PackageDownloadLocation == (bom.NodeList.Nodes[i].UrlDownload == "" ? "NOASSERTION" : bom.NodeList.Nodes[i].UrlDownload))
+//@   invariant L0: [C01:inv] (forall u int :: 0 <= u && u < len(bom.NodeList.Nodes) ==> !(bom.NodeList.Nodes[u].Id in fieldsetn(bom.NodeList.Nodes, Id, u))) ==> (forall p *v2_3.Package, i int :: (p in elems(packages)) && 0 <= i && i < len(bom.NodeList.Nodes) && bom.NodeList.Nodes[i].Type != 1 && p.PackageSPDXIdentifier == bom.NodeList.Nodes[i].Id ==> spdxPkgOf(p, bom.NodeList.Nodes[i]))
 //@   invariant L0: [C01:inv] (forall u int :: 0 <= u && u < len(bom.NodeList.Nodes) ==> !(bom.NodeList.Nodes[u].Id in fieldsetn(bom.NodeList.Nodes, Id, u))) ==> (forall p *v2_3.Package, i int :: (p in elems(packages)) && 0 <= i && i < len(bom.NodeList.Nodes) && bom.NodeList.Nodes[i].Type != 1 && p.PackageSPDXIdentifier == bom.NodeList.Nodes[i].Id ==> ((p.PackageSupplier != nil) <==> (len(bom.NodeList.Nodes[i].Suppliers) > 0)) && ((p.PackageOriginator != nil) <==> (len(bom.NodeList.Nodes[i].Originators) > 0)))
 //@   invariant L0: [C03:inv] forall i int :: 0 <= i && i < _i && bom.NodeList.Nodes[i].Type != 1 ==> (bom.NodeList.Nodes[i].Id in fieldset(packages, PackageSPDXIdentifier))
